@@ -54,6 +54,11 @@ C17_OBLIGATIONS = _inits("C17_CoordinatesEvenlySpaced", "C17_ImportRecoversCell"
 C17_CLAIM = ("Apalache: the exported coordinates lo + (i + 1/2) c are evenly spaced and the importer's reconstruction (cell = mean spacing, "
              "corners = outer coordinates -+ half a cell) returns the exported region and cell for unbounded lo, c and n >= 2 "
              "(spec/C17Core.tla; %d of %d obligations, reported, not relied on)")
+# spec/C16Core.tla: the rectilinear grid, its read-back and the x-fastest order of the cell data
+C16_OBLIGATIONS = _inits("C16_CentreInsideItsGridCell", "C16_ReaderRecoversMesh", "C16_PositionInRange", "C16_PositionDeterminesCell")
+C16_CLAIM = ("Apalache: the grid cell between the vertices i and i+1 contains the centre of mesh cell i, the reader's reconstruction returns "
+             "the mesh, and the x-fastest position i + nx (j + ny k) is a bijection between cells and positions for meshes of ANY size "
+             "(spec/C16Core.tla; %d of %d obligations, reported, not relied on)")
 C14_CLAIM = ("Apalache: a subregion inside the mesh region, on cell faces and a whole positive number of cells long stays so under translation, "
              "scaling by any non-zero integer factor about any point and the half turn (spec/C14Core.tla, inductive invariant for "
              "unbounded coordinates; %d of %d obligations, reported, not relied on)")
